@@ -15,8 +15,9 @@
     - [PegDust k w] : reported bSei backing <= claims + k.
 
     Main theorems
-    - [ft_reported]       : in a wired world with [EntWf] the reported bSei rate IS backing over
-                            claims, or the reported bSei pool is empty.
+    - [ft_reported], [ft_reported_stored] : in a wired world with [EntWf] the reported bSei rate IS
+                            backing over claims, or the reported bSei pool is empty (and the reported
+                            state is the stored one).
     - [ft_below_one]      : hence a reported rate below 1 means backing <= claims.
     - [ft_qas_bb_le]      : the synchronisation never raises the bSei pool.
     - [feetx_bond_fee], [feetx_conv_st_b_fee], [feetx_conv_b_st_fee] :
